@@ -58,6 +58,38 @@ def nz_vec(rng):
             return v
 
 
+def exc_vec(rng):
+    """an excitation vector: generic, or (1 in 4) exactly along +-x, +-y, +-z, or (1 in 25) exactly zero"""
+    x = rng.random()
+    if x < 0.04:
+        return [0.0, 0.0, 0.0]
+    if x < 0.29:
+        v = [0.0, 0.0, 0.0]
+        v[rng.randrange(3)] = rng.choice([-1, 1]) * rf(rng, 0.2, 1.0)
+        return v
+    return nz_vec(rng)
+
+
+def exc_current(rng):
+    """positive, negative and (1 in 20) exactly zero"""
+    return 0.0 if rng.random() < 0.05 else (rf(rng, -3, 3) or 1.5)
+
+
+def sc3(v, scale):
+    return [float(x) * scale for x in v]
+
+
+SPECIAL_ROTVECS = [[np.pi, 0, 0], [0, np.pi, 0], [0, 0, np.pi], [np.pi / 2, 0, 0], [0, -np.pi / 2, 0],
+                   [0, 0, np.pi / 2], [0, 0, -np.pi / 2], [0, 0, 0]]
+
+
+def gen_rotvec(rng):
+    """generic rotation vector, or (1 in 4) a 180-degree flip / quarter turn about an axis / the identity"""
+    if rng.random() < 0.25:
+        return [float(x) for x in rng.choice(SPECIAL_ROTVECS)]
+    return rvec(rng, -2, 2)
+
+
 EXCITATION = {"Circle": "current", "Loop": "current", "Polyline": "current", "Line": "current", "PolylineSeg": "current",
               "Dipole": "moment", "CustomSource": "cs_coef"}
 
@@ -75,7 +107,18 @@ def reexcite(cls, params, rng):
     return p
 
 
-def inner_point(cls, params, rng):
+def boost(cls, params, factor):
+    """the same source with its excitation multiplied (field ratios of 1e6..1e12 between sources of one call)"""
+    p = dict(params)
+    key = EXCITATION.get(cls, "polarization")
+    if key == "current":
+        p[key] = p[key] * factor
+    else:
+        p[key] = [x * factor for x in p[key]]
+    return p
+
+
+def inner_point(cls, params, rng, scale=1.0):
     """a point of the local frame well inside the body (magnets); near the origin for everything else"""
     u = lambda a, b: rng.uniform(a, b)   # noqa: E731
     if cls == "Cuboid":
@@ -96,11 +139,10 @@ def inner_point(cls, params, rng):
         return (np.array(params["vertices"]).T @ (w / w.sum())).tolist()
     if cls == "TriangularMesh":
         v = np.array(params["tm_vertices"])
-        ext = np.abs(v).max(axis=0)
-        if len(v) == 4:     # tetrahedron hull: stay close to the centroid
-            return [float(e) * u(-0.1, 0.1) for e in ext]
-        return [float(e) * u(-0.6, 0.6) for e in ext]
-    return [u(-0.05, 0.05) for _ in range(3)]
+        cen, ext = v.mean(axis=0), 0.5 * (v.max(axis=0) - v.min(axis=0))
+        fr = 0.1 if len(v) == 4 else 0.6    # tetrahedron hull: stay close to the centroid
+        return [float(c + e * u(-fr, fr)) for c, e in zip(cen, ext)]
+    return [scale * u(-0.05, 0.05) for _ in range(3)]
 
 
 def to_global(src, local):
@@ -112,7 +154,7 @@ def to_global(src, local):
     loc = np.array(local, dtype=float)
     if rv is not None:
         loc = rot_of(rv).apply(loc)
-    return [round(float(x), 6) for x in (np.array(pos, dtype=float) + loc)]
+    return [float(x) for x in (np.array(pos, dtype=float) + loc)]
 
 
 CUBE_V = [[x, y, z] for x in (-1, 1) for y in (-1, 1) for z in (-1, 1)]
@@ -122,40 +164,74 @@ TETRA_V = [[1, 1, 1], [1, -1, -1], [-1, 1, -1], [-1, -1, 1]]
 TETRA_F = [[0, 1, 2], [0, 3, 1], [0, 2, 3], [1, 3, 2]]
 
 
-def gen_params(cls, rng, nverts=None):
-    """functional-interface named parameters of one instance (python lists / floats)"""
+def aniso3(rng):
+    """three edge lengths; in half of the cases one axis (each in turn) is 3..8 times longer than the others"""
+    d = [rf(rng, 0.3, 1.5) for _ in range(3)]
+    if rng.random() < 0.5:
+        d[rng.randrange(3)] = round(d[0] * rng.uniform(3, 8), 3)
+    return d
+
+
+def gen_segment_dim(rng, region=None):
+    """(r1, r2, h, phi1, phi2): solid / hollow / thin shell; phi1 down to -360 (so also < -180), spans small, generic,
+    just below 360 and exactly 360; angles are multiples of 0.5 so that phi2 - phi1 <= 360 holds exactly"""
+    region = region or rng.choice(["segment", "segment", "segment-r1=0", "full-ring", "full-solid", "near-full"])
+    r1 = 0.0 if region in ("segment-r1=0", "full-solid") else rf(rng, 0.1, 0.6)
+    thick = 0.02 if rng.random() < 0.15 else rf(rng, 0.2, 0.8)          # thin shell
+    p1 = rng.randint(-720, 0) * 0.5
+    if region.startswith("full"):
+        span = 360.0
+    elif region == "near-full":
+        span = 359.5
+    else:
+        span = rng.choice([rng.randint(2, 20), rng.randint(40, 500)]) * 0.5
+    return [r1, round(r1 + thick, 3), round(rf(rng, 0.3, 1.5) * rng.choice([1, 1, 5]), 3), p1, p1 + span], region
+
+
+def gen_params(cls, rng, nverts=None, scale=1.0, region=None):
+    """functional-interface named parameters of one instance (python lists / floats); every length is multiplied by
+    `scale` (absolute length scales 1e-6 .. 1e3)"""
+    L = scale
     if cls in ("Circle", "Loop"):
-        return {"current": rf(rng, -3, 3) or 1.0, "diameter": rf(rng, 0.3, 1.5)}
+        return {"current": exc_current(rng), "diameter": rf(rng, 0.3, 1.5) * L}
     if cls in ("Polyline", "Line"):
         m = nverts or rng.randint(2, 4)
-        return {"current": rf(rng, -3, 3) or 1.0, "vertices": [rvec(rng) for _ in range(m)]}
+        return {"current": exc_current(rng), "vertices": [sc3(rvec(rng), L) for _ in range(m)]}
     if cls == "Cuboid":
-        return {"polarization": nz_vec(rng), "dimension": [rf(rng, 0.3, 1.5) for _ in range(3)]}
+        return {"polarization": exc_vec(rng), "dimension": sc3(aniso3(rng), L)}
     if cls == "Cylinder":
-        return {"polarization": nz_vec(rng), "dimension": [rf(rng, 0.3, 1.5) for _ in range(2)]}
+        d, h = rf(rng, 0.3, 1.5), rf(rng, 0.3, 1.5)
+        x = rng.random()
+        if x < 0.25:
+            h = round(d * rng.uniform(3, 8), 3)      # rod
+        elif x < 0.5:
+            d = round(h * rng.uniform(3, 8), 3)      # disc
+        return {"polarization": exc_vec(rng), "dimension": [d * L, h * L]}
     if cls == "CylinderSegment":
-        r1 = rf(rng, 0.1, 0.6)
-        p1 = rf(rng, -170, 100)
-        full = rng.random() < 0.2
-        return {"polarization": nz_vec(rng),
-                "dimension": [0.0 if rng.random() < 0.2 else r1, round(r1 + rf(rng, 0.2, 0.8), 3), rf(rng, 0.3, 1.5),
-                              p1, round(p1 + (360 if full else rf(rng, 20, 250)), 3)]}
+        dim, _ = gen_segment_dim(rng, region)
+        return {"polarization": exc_vec(rng), "dimension": [dim[0] * L, dim[1] * L, dim[2] * L, dim[3], dim[4]]}
     if cls == "Sphere":
-        return {"polarization": nz_vec(rng), "diameter": rf(rng, 0.3, 1.5)}
+        return {"polarization": exc_vec(rng), "diameter": rf(rng, 0.3, 1.5) * L}
     if cls == "Tetrahedron":
-        s = rf(rng, 0.3, 0.8)
-        return {"polarization": nz_vec(rng),
-                "vertices": [[round(s * c + rf(rng, -0.1, 0.1), 3) for c in v] for v in TETRA_V]}
+        s_ = rf(rng, 0.3, 0.8)
+        off = rvec(rng, -1, 1) if rng.random() < 0.5 else [0, 0, 0]        # body off its local origin
+        verts = [[round(s_ * c + rf(rng, -0.1, 0.1) + o, 3) for c, o in zip(v, off)] for v in TETRA_V]
+        rng.shuffle(verts)                                                   # every vertex order, both chiralities
+        return {"polarization": exc_vec(rng), "vertices": [sc3(v, L) for v in verts]}
     if cls == "TriangularMesh":
-        s = rf(rng, 0.3, 0.7)
+        s_ = rf(rng, 0.3, 0.7)
         kind = nverts or rng.choice(["cube", "tetra"])
         V, F = (CUBE_V, CUBE_F) if kind == "cube" else (TETRA_V, TETRA_F)
-        sc = [round(s * rf(rng, 0.6, 1.4), 3) for _ in range(3)]
-        return {"polarization": nz_vec(rng), "tm_vertices": [[sc[i] * v[i] for i in range(3)] for v in V], "tm_faces": F}
+        sc = [round(s_ * f, 3) for f in aniso3(rng)]
+        off = rvec(rng, -1, 1) if rng.random() < 0.5 else [0, 0, 0]
+        flip = rng.random() < 0.5                                            # faces given inside-out
+        return {"polarization": exc_vec(rng),
+                "tm_vertices": [[(sc[i] * v[i] + off[i]) * L for i in range(3)] for v in V],
+                "tm_faces": [f[::-1] for f in F] if flip else F}
     if cls == "Dipole":
-        return {"moment": nz_vec(rng)}
+        return {"moment": [x * L ** 3 for x in exc_vec(rng)]}
     if cls == "Triangle":
-        return {"polarization": nz_vec(rng), "vertices": [rvec(rng) for _ in range(3)]}
+        return {"polarization": exc_vec(rng), "vertices": [sc3(rvec(rng), L) for _ in range(3)]}
     if cls == "CustomSource":
         return {"cs_coef": [rf(rng, -2, 2) for _ in range(4)]}
     raise KeyError(cls)
@@ -165,7 +241,8 @@ def custom_field_func(coef):
     def ff(field, observers):
         c = coef["BHJM".index(field)]
         o = np.asarray(observers, dtype=float)
-        return c * o + np.array([0.25, -0.5, 1.0]) * np.sum(o * o, axis=1, keepdims=True)
+        r2 = (o[:, 0] * o[:, 0] + o[:, 1] * o[:, 1] + o[:, 2] * o[:, 2])[:, None]     # row by row, no reduction
+        return c * o + np.array([0.25, -0.5, 1.0]) * r2
     return ff
 
 
@@ -216,89 +293,136 @@ def quiet(fn, *a, **k):
 
 
 def scale_of(*arrs):
+    """largest finite magnitude"""
     s = 0.0
     for a in arrs:
         a = np.asarray(a, dtype=float)
+        a = a[np.isfinite(a)]
         if a.size:
             s = max(s, float(np.max(np.abs(a))))
     return s
 
 
-def same(a, b, exact, scale, rtol=1e-12):
+def same(a, b, exact, scale, rtol=1e-12, rows=False, floors=None):
+    """a == b.  exact: bit-equal.  Otherwise |a - b| <= rtol * scale, where with rows=True every index of axis 0 (one
+    source) is measured on ITS OWN scale (a weak source next to a strong one is not allowed to be wrong by the strong
+    one's rounding).  Non-finite entries (an observer exactly on a singular point) must sit at the same places with the
+    same value; the finite rest is compared as usual."""
     a, b = np.asarray(a), np.asarray(b)
     if a.shape != b.shape:
         return False, f"shapes {a.shape} vs {b.shape}"
-    if not (np.all(np.isfinite(a)) and np.all(np.isfinite(b))):
+    if exact:
         if np.array_equal(a, b, equal_nan=True):
             return True, ""
+        with np.errstate(all="ignore"):
+            return False, f"not bit-equal (max abs diff {np.nanmax(np.abs(a - b)):.3e})"
+    fa, fb = np.isfinite(a), np.isfinite(b)
+    if not np.array_equal(fa, fb) or not np.array_equal(a[~fa], b[~fb], equal_nan=True):
         return False, "non-finite values differ"
-    if exact:
-        if np.array_equal(a, b):
-            return True, ""
-        return False, f"not bit-equal (max abs diff {np.max(np.abs(a - b)):.3e})"
-    d = float(np.max(np.abs(a - b))) if a.size else 0.0
+    if rows and a.ndim >= 1 and a.shape[0] > 1:
+        for l in range(a.shape[0]):
+            sc_l = max(scale_of(b[l]) or scale_of(a[l]), floors[l] if floors is not None and l < len(floors) else 0.0)
+            ok, w = same(a[l], b[l], False, sc_l, rtol)
+            if not ok:
+                return False, f"source row {l}: {w}"
+        return True, ""
+    d = float(np.max(np.abs(np.where(fa, a - b, 0.0)))) if a.size else 0.0
     if d <= rtol * scale:
         return True, ""
     return False, f"max abs diff {d:.3e} at field scale {scale:.3e}"
 
 
-# ------------------------------------------------------------------ object-form configurations
 PIX_SHAPES = [None, [1], [2], [2, 2], [3, 1]]   # leading pixel dims; None = no pixel
+SCALES = [1.0, 1.0, 1e-3, 1e-6, 1e3]
+AGGS = ["mean", "max", "min", "std", "var", "ptp", "median", "sum"]
 
 
-def gen_obj_case(rng, classes, field=None, max_src=3, first_cls=None):
-    """1-3 sources (paths, rotations), 1-3 sensors.  With first_cls: source 0 is of that class and, in half of the cases,
-    source 1 is its TWIN (same class and geometry, other excitation, other place) -- equal-geometry instances share
-    every geometry-keyed batch step of a core, so they must be told apart by their own row.  About half of the
-    sensors sit INSIDE a source body (B, J, M are only non-trivial there)."""
-    M = rng.choice([1, 1, 2, 3])
+def gen_path(rng, m, gen):
+    return [gen() for _ in range(m)] if m > 1 else gen()
+
+
+def gen_obj_case(rng, classes, field=None, max_src=3, first_cls=None, battery=None):
+    """1-5 sources (paths of length 1, M and in between, generic and special rotations), 1-3 sensors, one absolute
+    length scale for the whole configuration (1e-6 .. 1e3).  With first_cls: source 0 is of that class and source 1 is,
+    in a third of the cases each, its TWIN (same geometry, other excitation, other place) or a SIBLING (same class,
+    other parameters: rows of different dispatch regions of one class in one vector call).  Sometimes one source is
+    boosted by 1e6..1e12 (large field ratios, either order).  About half of the sensors sit INSIDE a source body, a few
+    exactly AT a source position (axis / centre special cases)."""
+    L = rng.choice(SCALES)
+    M = rng.choice([1, 1, 2, 3, 4])
     nsrc = rng.randint(1, max_src)
-    twin = first_cls is not None and rng.random() < 0.5
-    if twin:
+    if battery == "many":           # >= 4 sources, several classes interleaved
+        nsrc = rng.randint(4, 6)
+    kin = rng.choice(["twin", "sibling", None]) if first_cls is not None else None
+    if kin:
         nsrc = max(nsrc, 2)
+    pool = rng.sample(classes, min(3, len(classes))) if battery == "many" else classes
+
+    def lengths():
+        return rng.choice([1, M, M] + ([rng.randint(2, M - 1)] if M > 2 else []))
+
     srcs = []
     for i in range(nsrc):
-        cls = first_cls if (i == 0 and first_cls) else rng.choice(classes)
-        m = rng.choice([1, M])
-        if i == 1 and twin:
+        cls = first_cls if (i == 0 and first_cls) else rng.choice(pool)
+        m = lengths()
+        if i == 1 and kin == "twin":
             cls, params, m = srcs[0]["cls"], reexcite(srcs[0]["cls"], srcs[0]["params"], rng), 1
+        elif i == 1 and kin == "sibling":
+            cls = srcs[0]["cls"]
+            params = gen_params(cls, rng, scale=L)
         else:
-            params = gen_params(cls, rng)
+            params = gen_params(cls, rng, scale=L)
         srcs.append({"cls": cls, "params": params,
-                     "position": [rvec(rng, -0.6, 0.6) for _ in range(m)] if m > 1 else rvec(rng, -0.6, 0.6),
-                     "rotvec": None if rng.random() < 0.3 else
-                     ([rvec(rng, -2, 2) for _ in range(m)] if m > 1 else rvec(rng, -2, 2))})
-    if twin:   # keep the twin clear of the original
-        srcs[1]["position"] = [round(x + 2.5, 3) for x in srcs[1]["position"]]
-        if rng.random() < 0.5:      # and sometimes in front of it in the source list
-            srcs[0], srcs[1] = srcs[1], srcs[0]
+                     "position": gen_path(rng, m, lambda: sc3(rvec(rng, -0.6, 0.6), L)),
+                     "rotvec": None if rng.random() < 0.3 else gen_path(rng, m, lambda: gen_rotvec(rng))})
+    if kin == "twin":   # keep the twin clear of the original
+        srcs[1]["position"] = [x + 2.5 * L for x in srcs[1]["position"]]
+    if kin and rng.random() < 0.5:      # either order in the source list
+        srcs[0], srcs[1] = srcs[1], srcs[0]
+    if nsrc >= 2 and rng.random() < 0.25:
+        j = rng.randrange(nsrc)
+        srcs[j]["params"] = boost(srcs[j]["cls"], srcs[j]["params"], rng.choice([1e6, 1e9, 1e12, 1e-6, 1e-9]))
     nsens = rng.randint(1, 3)
     pix_lead = rng.choice(PIX_SHAPES)
     sens = []
     for k in range(nsens):
-        m = rng.choice([1, M])
-        inside = rng.random() < 0.5
-        amp = 0.03 if inside else 0.3
+        m = lengths()
+        where = rng.choice(["inside", "inside", "outside", "outside", "at"])
+        amp = (0.03 if where == "inside" else 0.3) * L
         if pix_lead is None:
             pixel = None
         else:
             cnt = int(np.prod(pix_lead))
             pixel = np.array([rvec(rng, -amp, amp) for _ in range(cnt)]).reshape(pix_lead + [3]).tolist()
-        position = [rvec(rng, -2, 2) for _ in range(m)] if m > 1 else rvec(rng, -2, 2)
-        if inside:
-            host = srcs[1] if (twin and k == 0) else rng.choice(srcs)
-            anchor = to_global(host, inner_point(host["cls"], host["params"], rng))
+        position = gen_path(rng, m, lambda: sc3(rvec(rng, -2, 2), L))
+        if where != "outside":
+            host = srcs[1] if (kin == "twin" and k == 0) else rng.choice(srcs)
+            loc = inner_point(host["cls"], host["params"], rng, L) if where == "inside" else [0.0, 0.0, 0.0]
+            anchor = to_global(host, loc)
             if m > 1:
                 position[0] = anchor
             else:
                 position = anchor
         sens.append({"position": position,
-                     "rotvec": None if rng.random() < 0.4 else
-                     ([rvec(rng, -2, 2) for _ in range(m)] if m > 1 else rvec(rng, -2, 2)),
+                     "rotvec": None if rng.random() < 0.4 else gen_path(rng, m, lambda: gen_rotvec(rng)),
                      "pixel": pixel, "handedness": "left" if rng.random() < 0.15 else "right"})
-    return {"kind": "object-forms", "field": field or rng.choice(FIELDS), "sources": srcs, "sensors": sens,
+    shp = rng.choice([[], [1], [3], [2, 2]])
+    cnt = int(np.prod(shp)) if shp else 1
+    obs_positions = np.array([sc3(rvec(rng, -2, 2), L) for _ in range(cnt)]).reshape(shp + [3]).tolist()
+    if rng.random() < 0.3 and shp:     # one of them inside the first source
+        flat = np.array(obs_positions).reshape(-1, 3)
+        flat[0] = to_global(srcs[0], inner_point(srcs[0]["cls"], srcs[0]["params"], rng, L))
+        obs_positions = flat.reshape(shp + [3]).tolist()
+    history = None
+    if srcs[0]["cls"] != "CustomSource":
+        pos0 = srcs[0]["position"]
+        m0 = len(pos0) if isinstance(pos0[0], list) else 1
+        history = {"params": reexcite(srcs[0]["cls"], srcs[0]["params"], rng),
+                   "position": gen_path(rng, m0, lambda: sc3(rvec(rng, -0.6, 0.6), L))}
+    return {"kind": "object-forms", "field": field or rng.choice(FIELDS), "scale": L, "sources": srcs, "sensors": sens,
+            "obs_positions": obs_positions, "history": history,
             "pixel_agg": None, "in_out_form": rng.choice(["inside", "inside", "outside"]),
-            "agg_form": rng.choice(["mean", "max", "min"])}
+            "agg_form": rng.choice(AGGS)}
 
 
 def build_sources(case):
@@ -330,6 +454,12 @@ def check_object_forms(case):
         srcs, sens = build_sources(case), build_sensors(case)
         return quiet(fn, srcs, sens)
 
+    # a source's own scale: the field it makes here, but not less than its natural scale (|J| resp. |J|/mu0 of a
+    # magnet: near-cancellations inside the formulas round on that scale)
+    floors = []
+    for src in case["sources"]:
+        pol = src["params"].get("polarization")
+        floors.append(0.0 if pol is None else scale_of(pol) / (MU0 if f in "HM" else 1.0))
     ref = call(lambda s, q: gx(s, q, squeeze=False))              # (L, M, K, pix..., 3)
     each = [call(lambda s, q, l=l: gx(s[l], q, squeeze=False)) for l in range(L)]
     sc = scale_of(ref) or 1.0
@@ -347,13 +477,18 @@ def check_object_forms(case):
         idx = [min(i, m - 1) for i in range(M)]
         return np.take(a, idx, axis=axis)
 
+    def pathfix2(a, m_full):
+        idx = [min(i, a.shape[1] - 1) for i in range(m_full)]
+        return np.take(a, idx, axis=1)
+
     tot = np.sum(ref, axis=0, keepdims=True)
     forms = [("top-level squeeze=True", lambda s, q: gx(s, q), np.squeeze(ref), True, sc),
              ("getX(sumup=True)", lambda s, q: gx(s, q, sumup=True, squeeze=False), tot, False, sc * L),
              ("getX(tuple(sources), tuple(sensors))", lambda s, q: gx(tuple(s), tuple(q), squeeze=False), ref, True, sc)]
     for l in range(L):
         forms += [
-            ("getX(src_l, sensors) vs row l of getX(sources, sensors)", None, (pathfix(each[l]), ref[l:l + 1]), False, sc),
+            ("getX(src_l, sensors) vs row l of getX(sources, sensors)", None, (pathfix(each[l]), ref[l:l + 1]), False,
+             max(scale_of(ref[l]), floors[l])),
             ("src.getX([sensors])", lambda s, q, l=l: meth(s[l], f)(q, squeeze=False), each[l], True, sc),
             ("src.getX(*sensors)", lambda s, q, l=l: meth(s[l], f)(*q, squeeze=False), each[l], True, sc),
             ("src.getX(*sensors) squeezed", lambda s, q, l=l: meth(s[l], f)(*q), np.squeeze(each[l]), True, sc),
@@ -361,7 +496,7 @@ def check_object_forms(case):
     for k in range(K):
         full_k = call(lambda s, q, k=k: gx(s, q[k], squeeze=False))
         forms += [
-            ("getX(sources, sensor_k) vs column k", None, (pathfix(full_k), ref[:, :, k:k + 1]), False, sc),
+            ("getX(sources, sensor_k) vs column k", None, (pathfix(full_k), ref[:, :, k:k + 1]), False, sc, True),
             ("sens.getX(*sources)", lambda s, q, k=k: meth(q[k], f)(*s, squeeze=False), full_k, True, sc),
             ("sens.getX([sources])", lambda s, q, k=k: meth(q[k], f)(s, squeeze=False), full_k, True, sc),
             ("sens.getX(*sources, sumup=True)", lambda s, q, k=k: meth(q[k], f)(*s, sumup=True, squeeze=False),
@@ -374,9 +509,25 @@ def check_object_forms(case):
         ("getX(Collection(sources), sensors)", lambda s, q: pathfix(gx(C(*s), q, squeeze=False)), tot, False, sc * L),
         ("Collection(sources).getX(sensor_0)", lambda s, q: pathfix(meth(C(*s), f)(q[0], squeeze=False)),
          tot[:, :, 0:1], False, sc * L),
-        ("Collection(sensors).getX(*sources)", lambda s, q: pathfix(meth(C(*q), f)(*s, squeeze=False)), ref, False, sc),
-        ("getX(sources, Collection(sensors))", lambda s, q: pathfix(gx(s, C(*q), squeeze=False)), ref, False, sc),
-        ("src.getX(Collection(sensors))", lambda s, q: pathfix(meth(s[0], f)(C(*q), squeeze=False)), ref[0:1], False, sc),
+        ("Collection(sensors).getX(*sources)", lambda s, q: pathfix(meth(C(*q), f)(*s, squeeze=False)), ref, False, sc,
+         True),
+        ("getX(sources, Collection(sensors))", lambda s, q: pathfix(gx(s, C(*q), squeeze=False)), ref, False, sc, True),
+        ("src.getX(Collection(sensors))", lambda s, q: pathfix(meth(s[0], f)(C(*q), squeeze=False)), ref[0:1], False,
+         max(scale_of(ref[0]), floors[0])),
+        # nesting depth 2
+        ("getX(Collection(Collection(sources)), sensors)", lambda s, q: pathfix(gx(C(C(*s)), q, squeeze=False)),
+         tot, False, sc * L),
+        ("Collection(Collection(sources)).getX(*sensors)", lambda s, q: pathfix(meth(C(C(*s)), f)(*q, squeeze=False)),
+         tot, False, sc * L),
+        ("Collection(Collection(sensors)).getX(*sources)", lambda s, q: pathfix(meth(C(C(*q)), f)(*s, squeeze=False)),
+         ref, False, sc, True),
+        ("getX(sources, Collection(Collection(sensor_0), Collection(rest)))",
+         lambda s, q: pathfix(gx(s, C(C(q[0]), C(*q[1:])) if len(q) > 1 else C(C(q[0])), squeeze=False)),
+         ref, False, sc, True),
+        ("Collection(Collection(sources), Collection(sensors)).getX()",
+         lambda s, q: meth(C(C(*s), C(*q)), f)(squeeze=False), tot, False, sc * L),
+        # keyword call
+        ("getX(sources=, observers=)", lambda s, q: gx(sources=s, observers=q, squeeze=False), ref, True, sc),
         ("getX(Collection(sources), Collection(sensors))", lambda s, q: pathfix(gx(C(*s), C(*q), squeeze=False)),
          tot, False, sc * L),
         ("Collection(sources+sensors).getX()", lambda s, q: meth(C(*s, *q), f)(squeeze=False), tot, False, sc * L),
@@ -386,6 +537,8 @@ def check_object_forms(case):
         exp = np.concatenate([ref[0:1], np.sum(ref[1:], axis=0, keepdims=True)], axis=0)
         forms.append(("getX([src_0, Collection(rest)], sensors)",
                       lambda s, q: pathfix(gx([s[0], C(*s[1:])], q, squeeze=False)), exp, False, sc * L))
+        forms.append(("getX([Collection(Collection(src_0)), Collection(rest)], sensors)",
+                      lambda s, q: pathfix(gx([C(C(s[0])), C(*s[1:])], q, squeeze=False)), exp, False, sc * L))
     # keyword arguments are forwarded by every method form (pixel_agg; in_out where the form has it)
     agg = case.get("agg_form") or "mean"
     ref_agg = call(lambda s, q: gx(s, q, squeeze=False, pixel_agg=agg))
@@ -412,7 +565,51 @@ def check_object_forms(case):
                       call(lambda s, q, l=l: gx(s[l], q, squeeze=False, in_out=io)), True, sc))
     forms.append((f"sens.getX(in_out='{io}')", lambda s, q: meth(q[0], f)(*s, squeeze=False, in_out=io),
                   call(lambda s, q: gx(s, q[0], squeeze=False, in_out=io)), True, sc))
-    for name, fn, exp, exact, scl in forms:
+    # plain position arrays as observers: list / tuple / ndarray / a Sensor at the origin carrying them as pixels
+    P = case.get("obs_positions")
+    if P is not None:
+        def tup(x):
+            return tuple(tup(y) for y in x) if isinstance(x, list) else x
+        refp = call(lambda s, q: gx(s, P, squeeze=False))
+        scp = scale_of(refp) or 1.0
+        forms += [
+            ("getX(sources, ndarray positions)", lambda s, q: gx(s, np.array(P, dtype=float), squeeze=False), refp, True, scp),
+            ("getX(sources, tuple positions)", lambda s, q: gx(s, tup(P), squeeze=False), refp, True, scp),
+            ("getX(sources, Sensor(pixel=positions))", lambda s, q: gx(s, magpy.Sensor(pixel=P), squeeze=False),
+             refp, True, scp),
+            ("src.getX(positions)", lambda s, q: meth(s[0], f)(P, squeeze=False),
+             call(lambda s, q: gx(s[0], P, squeeze=False)), True, scp),
+            ("src.getX(ndarray positions) squeezed", lambda s, q: meth(s[0], f)(np.array(P, dtype=float)),
+             np.squeeze(call(lambda s, q: gx(s[0], P, squeeze=False))), True, scp),
+            ("getX(src_0, positions) vs row 0 of getX(sources, positions)",
+             lambda s, q: pathfix2(gx(s[0], P, squeeze=False), refp.shape[1]), refp[0:1], False,
+             max(scale_of(refp[0]), floors[0])),
+            ("getX(sources, [Sensor(pixel=positions), positions])",
+             lambda s, q: gx(s, [magpy.Sensor(pixel=P), P], squeeze=False),
+             np.concatenate([refp, refp], axis=2), False, scp, True),
+            ("Collection(sources).getX(positions)", lambda s, q: meth(C(*s), f)(P, squeeze=False),
+             np.sum(refp, axis=0, keepdims=True), False, scp * L),
+        ]
+    # history: call, then public attribute assignments (excitation, position), call again == a fresh twin
+    H = case.get("history")
+    if H is not None:
+        def hist(s, q):
+            gx(s, q)
+            key = EXCITATION.get(case["sources"][0]["cls"], "polarization")
+            if key != "cs_coef":
+                setattr(s[0], key, H["params"][key])
+            s[0].position = H["position"]
+            gx(s[0], q[0])
+            return gx(s, q, squeeze=False)
+        c2 = dict(case, sources=[dict(case["sources"][0], params=H["params"], position=H["position"])]
+                  + case["sources"][1:])
+        fresh = quiet(gx, build_sources(c2), build_sensors(c2), squeeze=False)
+        forms.append(("getX after attribute assignments vs fresh objects", hist, fresh, False, scale_of(fresh) or 1.0,
+                      True, 1e-10))
+    for form in forms:
+        name, fn, exp, exact, scl = form[:5]
+        rows = len(form) > 5 and form[5]
+        rtol = form[6] if len(form) > 6 else 1e-12
         if fn is None:
             got, exp = exp
         else:
@@ -422,7 +619,7 @@ def check_object_forms(case):
                 if not from_magpylib(e):
                     raise
                 return bad(name, f"raised {type(e).__name__}: {str(e)[:120]}", clause="form-raises")
-        ok, w = same(got, exp, exact, scl)
+        ok, w = same(got, exp, exact, scl, rtol=rtol, rows=rows, floors=floors)
         if not ok:
             return bad(name, w)
     return None
@@ -496,7 +693,8 @@ def check_dataframe(case):
 # ------------------------------------------------------------------ functional interface
 def gen_func_case(rng, cls, field=None, n=None, modes=None):
     """n instances of one class; per parameter mode 'single' | 'batch' | 'ragged'"""
-    n = n or rng.choice([1, 2, 2, 5])
+    n = n or rng.choice([1, 2, 2, 5, 17])
+    L = rng.choice(SCALES)
     base = cls
     keys = list(SPEC_RANK["Polyline" if cls == "PolylineSeg" else cls])
     if cls in ("Polyline", "Line"):
@@ -516,7 +714,7 @@ def gen_func_case(rng, cls, field=None, n=None, modes=None):
     ragged_sizes = None
     for i in range(n):
         if cls == "PolylineSeg":
-            p = {"current": rf(rng, -3, 3) or 1.0, "segment_start": rvec(rng), "segment_end": rvec(rng)}
+            p = {"current": exc_current(rng), "segment_start": sc3(rvec(rng), L), "segment_end": sc3(rvec(rng), L)}
         else:
             nv = None
             if cls in ("Polyline", "Line"):
@@ -531,9 +729,9 @@ def gen_func_case(rng, cls, field=None, n=None, modes=None):
                 else:
                     ragged_sizes = ragged_sizes or rng.choice(["cube", "tetra"])
                     nv = ragged_sizes
-            p = gen_params(cls, rng, nv)
-        inst = {"params": p, "position": rvec(rng, -0.6, 0.6), "rotvec": rvec(rng, -2, 2),
-                "observer": rvec(rng, -2, 2)}
+            p = gen_params(cls, rng, nv, scale=L)
+        inst = {"params": p, "position": sc3(rvec(rng, -0.6, 0.6), L), "rotvec": gen_rotvec(rng),
+                "observer": sc3(rvec(rng, -2, 2), L)}
         if shared is None:
             shared = inst
         else:
@@ -554,11 +752,11 @@ def gen_func_case(rng, cls, field=None, n=None, modes=None):
                 inst["observer"] = shared["observer"]
         # half of the observers sit inside the instance's own body (B, J, M are only non-trivial there)
         if rng.random() < 0.5 and (modes["observers"] != "single" or inst is shared):
-            inst["observer"] = to_global(inst, inner_point(cls, inst["params"], rng))
+            inst["observer"] = to_global(inst, inner_point(cls, inst["params"], rng, L))
         insts.append(inst)
     io = rng.choice(["auto", "auto", "inside", "outside"]) if cls in ("Tetrahedron", "TriangularMesh") else "auto"
     return {"kind": "functional", "cls": base, "field": field or rng.choice(FIELDS), "n": n, "modes": modes,
-            "in_out": io, "instances": insts}
+            "in_out": io, "scale": L, "as_array": rng.random() < 0.5, "instances": insts}
 
 
 def functional_call(case, squeeze=True):
@@ -577,7 +775,15 @@ def functional_call(case, squeeze=True):
     ori = rot_of(insts[0]["rotvec"]) if modes["orientation"] == "single" else rot_of([i["rotvec"] for i in insts])
     obs = insts[0]["observer"] if modes["observers"] == "single" else [i["observer"] for i in insts]
     io = {} if case.get("in_out", "auto") == "auto" else {"in_out": case["in_out"]}
-    got = quiet(getX(f), name, obs, position=pos, orientation=ori, squeeze=squeeze, **io, **kw)
+    if case.get("as_array"):
+        # float64 ndarrays instead of nested lists, and the keyword spelling of the first two arguments
+        # (a single scalar becomes a numpy scalar: a 0-d ndarray is not a documented input)
+        kw = {k: (v if modes[k] == "ragged" else (np.float64(v) if np.ndim(v) == 0 else np.array(v, dtype=float)))
+              for k, v in kw.items()}
+        pos, obs = np.array(pos, dtype=float), np.array(obs, dtype=float)
+        got = quiet(getX(f), sources=name, observers=obs, position=pos, orientation=ori, squeeze=squeeze, **io, **kw)
+    else:
+        got = quiet(getX(f), name, obs, position=pos, orientation=ori, squeeze=squeeze, **io, **kw)
     return got, objs
 
 
@@ -620,11 +826,13 @@ def ulp_sensitivity(obj, observer, f, io=None):
     o = np.array(observer, dtype=float)
     io = io or {}
     base = quiet(getX(f), obj, o, **io)
+    # the rounding of `observers - position` and of the rotation acts on numbers of this size
+    mag = max(float(np.max(np.abs(o))), float(np.max(np.abs(obj._position))), 1e-300)
     worst = 0.0
     for ax in range(3):
         for sgn in (-1.0, 1.0):
             p = o.copy()
-            p[ax] += sgn * 4 * np.spacing(max(abs(p[ax]), 1.0))
+            p[ax] += sgn * 4 * np.spacing(mag)
             worst = max(worst, float(np.max(np.abs(quiet(getX(f), obj, p, **io) - base))))
     return worst
 
@@ -725,29 +933,34 @@ def cyl_vec_to_cart(phi, vr, vphi, vz):
 
 
 def gen_core_case(rng, cls, n=None, region=None):
-    """n instances for one core function; every parameter region of the class (CylinderSegment: section < 360 and
-    == 360, r1 == 0 and > 0) and observers outside, close by, inside the material and (rings) in the bore"""
-    n = n or rng.randint(1, 4)
+    """n instances (1 .. 17) for one core function at one absolute length scale; every parameter region of the class
+    (CylinderSegment: section < 360, just below 360 and == 360, r1 == 0 and > 0, thin shells, phi1 down to -360) and
+    observers outside, close by, inside the material and (rings) in the bore"""
+    n = n or rng.choice([1, 2, 3, 4, 17])
+    L = rng.choice(SCALES)
+
+    def pol():
+        while True:
+            v = exc_vec(rng)
+            if any(v):
+                return v
     insts = []
     for _ in range(n):
         reg = None
         if cls == "CylinderAxial":
-            p = gen_params("Cylinder", rng)
+            p = gen_params("Cylinder", rng, scale=L)
             p["polarization"] = [0.0, 0.0, rf(rng, 0.2, 1.0) * rng.choice([-1, 1])]
         elif cls == "CylinderDiametral":
-            p = gen_params("Cylinder", rng)
-            p["polarization"] = [rf(rng, -1, 1), rf(rng, 0.2, 1.0), 0.0]
+            p = gen_params("Cylinder", rng, scale=L)
+            p["polarization"] = rng.choice([[rf(rng, -1, 1), rf(rng, 0.2, 1.0), 0.0], [rf(rng, 0.2, 1.0), 0.0, 0.0],
+                                            [0.0, -rf(rng, 0.2, 1.0), 0.0]])
         elif cls == "CylinderSegment":
-            reg = region or rng.choice(["segment", "segment-r1=0", "full-ring", "full-solid"])
-            r1 = 0.0 if reg in ("segment-r1=0", "full-solid") else rf(rng, 0.15, 0.6)
-            p1 = rf(rng, -170, 0)
-            p2 = round(p1 + 360, 3) if reg.startswith("full") else round(p1 + rf(rng, 20, 250), 3)
-            p = {"polarization": nz_vec(rng),
-                 "dimension": [r1, round(r1 + rf(rng, 0.2, 0.8), 3), rf(rng, 0.3, 1.5), p1, p2]}
+            dim, reg = gen_segment_dim(rng, region)
+            p = {"polarization": pol(), "dimension": [dim[0] * L, dim[1] * L, dim[2] * L, dim[3], dim[4]]}
         elif cls == "PolylineSeg":
-            p = {"current": rf(rng, -3, 3) or 1.0, "segment_start": rvec(rng), "segment_end": rvec(rng)}
+            p = {"current": exc_current(rng), "segment_start": sc3(rvec(rng), L), "segment_end": sc3(rvec(rng), L)}
         else:
-            p = gen_params(cls, rng)
+            p = gen_params(cls, rng, scale=L)
         ocl = {"CylinderAxial": "Cylinder", "CylinderDiametral": "Cylinder"}.get(cls, cls)
         kind = rng.choice(["far", "near", "inside", "bore"])
         if kind == "far":
@@ -756,19 +969,21 @@ def gen_core_case(rng, cls, n=None, region=None):
                 r = float(np.linalg.norm(o))
                 if 2.0 <= r <= 4.5 and min(abs(x) for x in o) > 0.05:
                     break
+            o = sc3(o, L)
         elif kind == "near" or ocl not in ("Cuboid", "Sphere", "Cylinder", "CylinderSegment"):
             while True:
                 o = rvec(rng, -1.5, 1.5)
                 if min(abs(x) for x in o) > 0.02:
                     break
+            o = sc3(o, L)
         elif kind == "bore" and ocl == "CylinderSegment" and p["dimension"][0] > 0:
             r1, h = p["dimension"][0], p["dimension"][2]
             rr, a = r1 * rng.uniform(0.1, 0.85), rng.uniform(0.1, 6.2)
-            o = [round(rr * np.cos(a), 5), round(rr * np.sin(a), 5), round(h * rng.uniform(-0.45, 0.45), 5)]
+            o = [float(rr * np.cos(a)), float(rr * np.sin(a)), float(h * rng.uniform(-0.45, 0.45))]
         else:
-            o = [round(float(x), 5) for x in inner_point(ocl, p, rng)]
+            o = [float(x) for x in inner_point(ocl, p, rng, L)]
         insts.append({"params": p, "observer": o, "region": reg, "where": kind})
-    return {"kind": "core", "cls": cls, "instances": insts}
+    return {"kind": "core", "cls": cls, "scale": L, "instances": insts}
 
 
 def check_core(case):
@@ -836,6 +1051,8 @@ def check_core(case):
         nat = scale_of(P["polarization"][i]) if "polarization" in P else 0.0
         sc = max(scale_of(B[i]), scale_of(H[i]) * MU0, nat) / (1.0 if want == "B" else MU0)
         rtol = 1e-7 if str(inst.get("region", "")).startswith("full") else 1e-10
+        if cls == "Dipole":
+            nat = 0.0
         d = float(np.max(np.abs(got[i] - exp[i])))
         if d <= rtol * sc:
             continue
@@ -916,15 +1133,16 @@ def shrink_obj_case(case):
             r = run_case(c)
         except Exception:   # pylint: disable=broad-except
             return None
-        return r if (r is not None and r["clause"] == first["clause"]) else None
+        return r if (r is not None and r["clause"] == first["clause"] and r["trigger"] == first["trigger"]) else None
 
     cur, res = case, first
-    cands = []
+    cands = [lambda c: dict(c, history=None) if c.get("history") else None,
+             lambda c: dict(c, obs_positions=None) if c.get("obs_positions") is not None else None]
     for flag in ("sumup", "pixel_agg"):
         if cur.get(flag):
             cands.append(lambda c, flag=flag: dict(c, **{flag: None}))
     for _ in range(3):
-        cands.append(lambda c: dict(c, sources=c["sources"][1:]) if len(c["sources"]) > 1 else None)
+        cands.append(lambda c: dict(c, sources=c["sources"][1:], history=None) if len(c["sources"]) > 1 else None)
         cands.append(lambda c: dict(c, sources=c["sources"][:-1]) if len(c["sources"]) > 1 else None)
         cands.append(lambda c: dict(c, sensors=c["sensors"][1:]) if len(c["sensors"]) > 1 else None)
         cands.append(lambda c: dict(c, sensors=c["sensors"][:-1]) if len(c["sensors"]) > 1 else None)
@@ -936,7 +1154,8 @@ def shrink_obj_case(case):
         if o["rotvec"] is not None and isinstance(o["rotvec"][0], list):
             o["rotvec"] = o["rotvec"][0]
         return o
-    cands.append(lambda c: dict(c, sources=[static(o) for o in c["sources"]], sensors=[static(o) for o in c["sensors"]]))
+    cands.append(lambda c: dict(c, sources=[static(o) for o in c["sources"]], sensors=[static(o) for o in c["sensors"]],
+                                history=None))
     cands.append(lambda c: dict(c, sensors=[dict(o, pixel=None) for o in c["sensors"]]))
     cands.append(lambda c: dict(c, sensors=[dict(o, rotvec=None, handedness="right") for o in c["sensors"]]))
     cands.append(lambda c: dict(c, sources=[dict(o, rotvec=None) for o in c["sources"]]))
